@@ -45,6 +45,9 @@ KINDS = {
     'XI': ('threading', 'XIgn-upper', True, False),
 }
 IGNORE = ['(?i)IGN', r'pool-\d{1,3}$', 'xi']
+# other pattern lists (case[6]); a run must use the patterns it was given and
+# nothing else (in particular not those of an earlier run in the same process)
+IGNSETS = [IGNORE, [], ['(?i)IGN'], [r'pool-\d{1,3}$', 'xi']]
 KL = list(KINDS)
 
 
@@ -86,6 +89,11 @@ def cases(tier, seed):
             for pol in ('fresh', 'recycle'):
                 for scr in ('sub_skip', 'sub:1,0,1', 'redir_sub_fail'):
                     yield [[list(s0), list(s1)], [['never'] * len([k for k in s0 if KINDS[k][2]])], pol, None, scr]
+    # other --ignore-new-thread lists (none, one pattern, two patterns)
+    for ign in (1, 2, 3):
+        for s0 in [(k,) for k in KL]:
+            for s1 in ((), ('IG',), ('PG',)):
+                yield [[list(s0), list(s1)], [['never']], 'fresh', None, None, None, ign]
     one = [()] + [(k,) for k in KL]
     # real threads: conformance of the virtual thread table with the platform
     for s0, s1 in itertools.product(one, repeat=2):
@@ -101,6 +109,10 @@ def cases(tier, seed):
                 for r1 in opts1:
                     for pol in ('fresh', 'recycle'):
                         yield [[list(s0), list(s1), list(s2)], [[r0] if r0 else [], [r1] if r1 else []], pol, None]
+
+
+def history_cases(tier):
+    return [[[['IG', 'PG'], ['XI']], [['never', 'never']], 'fresh', None, None, None, ign] for ign in (0, 1, 2, 3)]
 
 
 def build(seq, rels, hookkind=None):
@@ -167,7 +179,8 @@ def run_case(case):
         # the first test goes on after starting its threads: a skipped or
         # failing subtest (result events in the middle of the test)
         spec['tests'][0]['s'] = case[4]
-    if len(case) > 5:
+    ignore = IGNSETS[case[6]] if len(case) > 6 else IGNORE
+    if len(case) > 5 and case[5]:
         if case[5] == 'in_test2':
             spec['tests'][1]['th'] = [['touch', 't0a']] + list(spec['tests'][1].get('th') or [])
         else:
@@ -188,7 +201,7 @@ def run_case(case):
         worldrt.thread_action(['start', '_thread', '', 'pre2', True])
         pre = {worldrt.VTABLE.recs['pre1']['ident'], worldrt.VTABLE.recs['pre2']['ident']}
     try:
-        res = runrt.run_world(spec, [x for p in IGNORE for x in ('--ignore-new-thread', p)], probe=False)
+        res = runrt.run_world(spec, [x for p in ignore for x in ('--ignore-new-thread', p)], probe=False)
         if mode == 'real':
             reg = {tid: dict(ident=r['ident'], name=r['name'], api=r['api'])
                    for tid, r in worldrt.THREADS.items()}
@@ -226,7 +239,7 @@ def run_case(case):
                 continue
             if released_in.get(tid) == i:
                 continue
-            if any(re.match(p, reg[tid]['name'] or '') for p in IGNORE):
+            if any(re.match(p, reg[tid]['name'] or '') for p in ignore):
                 continue
             want.add(ident)
         got = set()
@@ -258,7 +271,7 @@ def run_case(case):
             clause = ('leak_missed_ident_recycled' if (reused and not extra) else
                       ('thread_wrongly_reported' if extra else 'leaked_thread_not_reported'))
             viol.append({'clause': clause,
-                         'sig': {'kinds': kinds, 'mode': mode, 'hook': hookkind} if clause != 'leak_missed_ident_recycled' else {},
+                         'sig': {'kinds': kinds, 'mode': mode, 'hook': hookkind, 'ign': case[6] if len(case) > 6 else 0} if clause != 'leak_missed_ident_recycled' else {},
                          'detail': 'seq=%s rels=%s test q%d: reported idents %s, really left behind %s (extra: %s; missing %s); registry %s\n%s'
                                    % (seq, rels, i, sorted(got), sorted(want), what, sorted(missing), reg, [b[1] for b in blocks])})
     nt = any(KINDS[k][2] for ks in seq for k in ks)
